@@ -636,6 +636,24 @@ def strip(t):
             t = t[2]
         elif t[0] == 'call' and t[2] and any(t[1].startswith(p) for p in TRANSPARENT[:8]):
             t = t[2][0]
+        elif t[0] == 'field' and len(t) > 2:
+            # a field read back from a value that was just built: `S { a: x, .. }.a` is x (state carried in private structs,
+            # tuples returned by helpers, `Some(v)` / `Ok(v)` payloads taken apart again)
+            base = strip(t[1])
+            variant = None
+            if base[0] == 'downcast' and len(base) > 2:
+                variant = base[2]
+                base = strip(base[1])
+            hit = None
+            if base[0] == 'agg' and len(base) > 3 and isinstance(base[3], list) and (variant is None or base[2] == variant):
+                for nm, ft in base[3]:
+                    if nm == t[2]:
+                        hit = ft
+            elif base[0] == 'tuple' and variant is None and isinstance(t[2], str) and t[2].isdigit() and int(t[2]) < len(base[1]):
+                hit = base[1][int(t[2])]
+            if hit is None:
+                return t
+            t = hit
         else:
             return t
 
